@@ -1,4 +1,5 @@
 """C06 — motion/configuration helpers emit exactly the documented EBB command text."""
+import inspect
 import itertools
 
 from hypothesis import strategies as st
@@ -164,13 +165,32 @@ def texts(writes):
     return out
 
 
-def run_legacy(name, args, delay=()):
+def verbose_call(fn, verbose, first, args):
+    """How the caller spells the legacy helpers' trailing `verbose` flag: left out, positional (the pinned
+    signatures all end in `verbose=True`, and that is how AxiDraw-style callers pass it) or by keyword.  A
+    signature that does not accept the spelling is not this property's business: the flag is then left out."""
+    extra, kwargs = (), {}
+    if verbose == "pos":
+        extra = (False,)
+    elif verbose == "kw":
+        kwargs = {"verbose": False}
+    if extra or kwargs:
+        try:
+            inspect.signature(fn).bind(first, *args, *extra, **kwargs)
+        except (TypeError, ValueError):
+            extra, kwargs = (), {}
+    return tuple(args) + extra, kwargs
+
+
+def run_legacy(name, args, delay=(), verbose=None):
     # delay: empty reads (timeouts) the port delivers before successive reply lines - the device still
     # acknowledges every command, just not at once
     board = Board("legacy", version="2.8.1", lenient=True, empties=list(delay))
     port = FakePort(board)
     port.begin_call()
-    call_sut(getattr(ebb_motion, name), port, *args)
+    fn = getattr(ebb_motion, name)
+    pos, kwargs = verbose_call(fn, verbose, port, args)
+    call_sut(fn, port, *pos, **kwargs)
     return texts(port.writes), port
 
 
@@ -267,7 +287,13 @@ def body(ctx, case):
         ctx.classes["acknowledgements_delayed"] += 1
         what += " (acknowledgements delayed by %r empty reads)" % (list(delay),)
     if layer == "legacy":
-        got, _port = run_legacy(name, args, delay)
+        verbose = case.get("verbose")
+        if verbose:
+            classes.add("verbose_" + verbose)
+            ctx.classes["verbose_" + verbose] += 1
+            what += " with the verbose flag %s" % ("as last positional argument (False)" if verbose == "pos"
+                                                   else "as keyword (verbose=False)")
+        got, _port = run_legacy(name, args, delay, verbose)
         check_exact(ctx, case, got, expected, what)
         if name in ("doTimedPause",):
             durations = [int(g.split(",")[1]) for g in got]
@@ -448,6 +474,10 @@ def cases(draw):
     case = {"layer": layer, "helper": name, "args": args}
     if draw(st.integers(0, 3)) == 0:
         case["delay"] = draw(st.lists(st.sampled_from([0, 1, 1, 2, 5]), min_size=1, max_size=6))
+    if layer == "legacy":
+        spelled = draw(st.sampled_from([None, None, "pos", "kw"]))
+        if spelled:
+            case["verbose"] = spelled
     return case
 
 
@@ -481,6 +511,16 @@ def grid():
             if not strats:
                 yield {"layer": layer, "helper": name, "args": []}
                 yield {"layer": layer, "helper": name, "args": [], "delay": [1, 2, 1, 1, 1]}
+    for name, (strats, _f) in sorted(LEGACY.items()):
+        # every legacy helper once with the trailing verbose flag passed the way its signature orders it
+        sample = {"doABMove": [10, -5, 100], "doTimedPause": [800], "doLowLevelMove": [5, 7, 0, 5, -7, 0, None],
+                  "doXYMove": [10, -5, 100], "doAbsMove": [1000, None, None], "sendEnableMotors": [1],
+                  "sendPenDown": [100, None], "sendPenUp": [100, None], "PBOutConfig": [3, 1], "PBOutValue": [3, 1],
+                  "setPenDownPos": [12000], "setPenDownRate": [400], "setPenUpPos": [18000], "setPenUpRate": [400],
+                  "setEBBLV": [7], "servo_timeout": [5000, None]}.get(name, [])
+        if len(sample) == len(strats):
+            yield {"layer": "legacy", "helper": name, "args": sample, "verbose": "pos"}
+            yield {"layer": "legacy", "helper": name, "args": sample, "verbose": "kw"}
     for helper, layer, args in (("doXYMove", "legacy", [10, -5, 100]), ("xy_move", "ebb3", [10, -5, 100]),
                                 ("doTimedPause", "legacy", [1600]), ("timed_pause", "ebb3", [1600]),
                                 ("sendPenDown", "legacy", [100, 2]), ("pen_lower", "ebb3", [100, 2]),
